@@ -72,11 +72,12 @@ def insn_bounds(data):
 
 
 class Shape:
-    def __init__(self, kind="plain", funcs=True, cfi="none", ann="none", data_follows=False):
-        self.kind, self.funcs, self.cfi, self.ann, self.data_follows = kind, funcs, cfi, ann, data_follows
+    def __init__(self, kind="plain", funcs=True, cfi="none", ann="none", data_follows=False, callee2=False):
+        self.kind, self.funcs, self.cfi, self.ann, self.data_follows, self.callee2 = kind, funcs, cfi, ann, data_follows, callee2
 
     def __repr__(self):
-        return "shape(kind=%s funcs=%s cfi=%s ann=%s%s)" % (self.kind, self.funcs, self.cfi, self.ann, " data" if self.data_follows else "")
+        return "shape(kind=%s funcs=%s cfi=%s ann=%s%s%s)" % (self.kind, self.funcs, self.cfi, self.ann, " data" if self.data_follows else "",
+                                                             " callee-of-two-blocks" if self.callee2 else "")
 
 
 def build(shape):
@@ -86,7 +87,8 @@ def build(shape):
     b0 = add_code_block(bi, b"\x90")
     b1 = add_code_block(bi, data)
     b2 = add_code_block(bi, b"\x90\xc3")
-    g1 = add_code_block(bi, b"\xc3")
+    g1 = add_code_block(bi, b"\x90" if shape.callee2 else b"\xc3")
+    g2 = add_code_block(bi, b"\xc3") if shape.callee2 else None
     s0 = add_symbol(m, "f", b0)
     add_symbol(m, "L1", b1)
     s2 = add_symbol(m, "L2", b2)
@@ -111,11 +113,14 @@ def build(shape):
     if term == "ret":
         add_edge(ir.cfg, b1, retproxy, gtirb.EdgeType.Return)
     add_edge(ir.cfg, b2, retproxy, gtirb.EdgeType.Return)
+    gret = g2 if shape.callee2 else g1
+    if shape.callee2:
+        add_edge(ir.cfg, g1, g2, gtirb.EdgeType.Fallthrough)
     if term == "call":
-        add_edge(ir.cfg, g1, b2, gtirb.EdgeType.Return)
+        add_edge(ir.cfg, gret, b2, gtirb.EdgeType.Return)
     else:
-        add_edge(ir.cfg, g1, add_proxy_block(m), gtirb.EdgeType.Return)
-    blocks = [b0, b1, b2, g1]
+        add_edge(ir.cfg, gret, add_proxy_block(m), gtirb.EdgeType.Return)
+    blocks = [b0, b1, b2, g1] + ([g2] if shape.callee2 else [])
     if shape.data_follows:
         _, dbi = add_data_section(m, address=0x2000)
         d0 = add_data_block(dbi, b"\x01\x02\x03\x04")
@@ -124,7 +129,7 @@ def build(shape):
     fl = []
     if shape.funcs:
         add_function(m, s0, b0, {b1, b2})
-        add_function(m, sg, g1)
+        add_function(m, sg, g1, {g2} if shape.callee2 else set())
         fl = gtirb_functions.Function.build_functions(m)
     if shape.cfi != "none":
         tab = {}
